@@ -113,7 +113,7 @@ Definition usk_wf (k : usk) : Prop :=
   blen (usk_o k) = USK_ORCHARD_LEN /\ blen (usk_s k) = USK_SAPLING_LEN /\ blen (usk_t k) = USK_P2PKH_LEN
   /\ fixed_point (dec_o_sk O) (usk_o k) /\ fixed_point (dec_s_sk O) (usk_s k)
   /\ fixed_point (dec_t_sk O) (usk_t k)
-  /\ t_pk_ivk O (t_sk_pk O (usk_t k)) <> None.
+  /\ t_sk_ivk O (usk_t k) <> None.
 
 Lemma cs_read_small v r : v < 253 -> cs_read (v :: r) = Some (v, r).
 Proof.
@@ -157,7 +157,7 @@ Proof.
   change (tc_of_u32 0) with (Some TcP2pkh). cbv iota beta.
   rewrite cs_read_small by lia. rewrite N.eqb_refl. cbn [negb].
   rewrite take_app by exact Lt. rewrite Ft.
-  unfold usk_from_checked_parts. destruct (t_pk_ivk O (t_sk_pk O t)); [reflexivity | congruence].
+  unfold usk_from_checked_parts. destruct (t_sk_ivk O t); [reflexivity | congruence].
 Qed.
 
 Theorem usk_roundtrip k : usk_wf k -> usk_from_bytes O (usk_to_bytes k) = Ok k.
@@ -175,11 +175,11 @@ Proof. intros H. rewrite usk_roundtrip by exact H. reflexivity. Qed.
 
 (** a decoded key satisfies the constructor invariant and every component went through its
     primitive decoder *)
-Lemma usk_loop_ok fuel : forall src o s t k,
+Lemma usk_loop_ok fuel : sk_coherent O -> forall src o s t k,
   usk_loop O fuel src o s t = Ok k ->
   ufvk_derivable O (usk_to_ufvk O k).
 Proof.
-  induction fuel as [|fuel IH]; intros src o s t k H; [discriminate|].
+  intros CO. induction fuel as [|fuel IH]; intros src o s t k H; [discriminate|].
   cbn [usk_loop] in H.
   destruct (cs_read src) as [[v src1]|]; [|discriminate].
   destruct (tc_of_u32 v) as [c|]; [|discriminate].
@@ -195,7 +195,7 @@ Proof.
     destruct s' as [ks|]; [|eapply IH; exact G].
     destruct t' as [kt|]; [|eapply IH; exact G].
     destruct (usk_from_checked_parts O kt ks ko) eqn:E; try discriminate.
-    inversion G; subst. apply usk_from_checked_parts_derivable in E. tauto. }
+    inversion G; subst. apply usk_from_checked_parts_derivable in E; [tauto | exact CO]. }
   destruct c; try discriminate.
   - destruct (negb (len =? USK_P2PKH_LEN)); [discriminate|].
     destruct (take (N.to_nat USK_P2PKH_LEN) src2) as [[key rest]|]; [|discriminate].
@@ -209,10 +209,10 @@ Proof.
 Qed.
 
 Theorem usk_from_bytes_derivable b k :
-  usk_from_bytes O b = Ok k -> ufvk_derivable O (usk_to_ufvk O k).
+  sk_coherent O -> usk_from_bytes O b = Ok k -> ufvk_derivable O (usk_to_ufvk O k).
 Proof.
-  unfold usk_from_bytes. destruct (take 4 b) as [[e src]|]; [|discriminate].
-  destruct (era_of_id (of_le e)); [|discriminate]. apply usk_loop_ok.
+  intros CO. unfold usk_from_bytes. destruct (take 4 b) as [[e src]|]; [|discriminate].
+  destruct (era_of_id (of_le e)); [|discriminate]. apply usk_loop_ok. exact CO.
 Qed.
 
 (** totality relative to the oracles: no panic unless a primitive decoder panics, and the
@@ -656,13 +656,13 @@ Proof.
 Qed.
 
 Theorem usk_roundtrip_addresses k :
-  usk_wf O k ->
+  sk_coherent O -> usk_wf O k ->
   exists k', usk_from_bytes O (usk_to_bytes k) = Ok k' /\ usk_to_bytes k' = usk_to_bytes k
     /\ forall j r, usk_address O k' j r = usk_address O k j r /\ usk_address O k j r <> Panic.
 Proof.
-  intros W. exists k. split; [apply usk_roundtrip, W|]. split; [reflexivity|]. intros j r. split; [reflexivity|].
+  intros CO W. exists k. split; [apply usk_roundtrip, W|]. split; [reflexivity|]. intros j r. split; [reflexivity|].
   destruct W as (_ & _ & _ & _ & _ & _ & D).
-  assert (D' : ufvk_derivable O (usk_to_ufvk O k)) by (unfold ufvk_derivable; cbn; exact D).
+  assert (D' : ufvk_derivable O (usk_to_ufvk O k)) by (unfold ufvk_derivable; cbn; apply CO; exact D).
   destruct (address_commutes O k j r D') as (i & _ & X & Y). rewrite X, Y. apply address_never_panics.
 Qed.
 
